@@ -68,7 +68,7 @@ BASE = [
 
 # names of base.__all__ that take no vector / angle / unit / order argument (or are graphics / matrix-only)
 BASE_NOT_APPLICABLE = {
-    'getunit', 'removesmall',   # return their argument's own container type / shape by design
+    'getunit',   # return their argument's own container type / shape by design
 
     'assertmatrix', 'ismatrix', 'assertvector', 'isscalar', 'isnumberlist', 'isvectorlist', 'r2q', 'rand', 'ishom2', 'isrot2',
     'trlog2', 'trinterp2', 'trprint2', 'trplot2', 'tranimate2', 'trinv2', 'ishom', 'isrot', 'trlog', 'trnorm', 'trinterp', 'trinv',
@@ -149,6 +149,12 @@ CLASSES = [
     E('base.h2e', [V((2, 3, 4))], tags={'nolength', 'forms3'}), E('base.e2h', [V((2, 3))], tags={'nolength', 'forms3'}),
     # one angle per twist: a vector of angles for an object holding three twists has three elements
     E('m:Twist3.exp', [V(3)], recv=('OBJM', 'Twist3')), E('m:Twist2.exp', [V(3)], recv=('OBJM', 'Twist2')),
+    E('m:Twist3.exp', [V(3)], {'units': U}, recv=('OBJM', 'Twist3'), tags={'unit_in:vec'}), E('m:Twist3.exp', [A], {'units': U}, recv=('OBJM', 'Twist3'), tags={'unit_in'}),
+    # "array_like(n)": the list and tuple forms give what the 1-D array gives (a 2-D array keeps its shape, so three forms only)
+    E('base.removesmall', [V(None)], tags={'forms3', 'nolength'}),
+    # equality of two quaternions given as vectors: equal operands, and q against -q for unit quaternions
+    E('base.isequal', [V(4), V(4)], tags={'same01'}), E('base.isequal', [('Q',), ('Q',)], {'unitq': ('LIT', True)}, tags={'neg01'}),
+    E('base.isequal', [('Q',), ('Q',)], {'tol': ('LIT', 100)}, tags={'same01'}),
     # the bounds of a volume: "6-element array_like"
     E('m:Plucker.intersect_volume', [V(6)], recv=('OBJ', 'Plucker')),
 ]
